@@ -96,7 +96,7 @@ template <typename T> cocls::async<void> c4_driver(c4_ctx &X, int mode, c4_resul
         try {
             if constexpr (std::is_void_v<T>) { co_await c4_body<T>(X, 0, tracked(1)); res.got.state = PS_VALUE; }
             else { T v = std::move(co_await c4_body<T>(X, 0, tracked(1))); res.got.state = PS_VALUE; res.got.val = c4_id(v); }
-        } catch (const vf::test_exc &e) { res.got.state = PS_EXC; res.got.code = e.code; } catch (const f_cancel_reason &e) { res.got.state = PS_EXC; res.got.code = e.code; }
+        } catch (const vf::test_exc &e) { res.got.state = PS_EXC; res.got.code = e.code; } catch (const f_cancel_reason &e) { res.got.state = PS_EXC; res.got.code = e.code; } catch (const cocls::await_canceled_exception &) { res.got.state = PS_CANCELED; }
         catch (const cocls::await_canceled_exception &) { res.got.state = PS_CANCELED; }
         res.have = true;
     }
@@ -188,7 +188,7 @@ void async_program(const vf::opts &o, vf::report &R, uint64_t pn, vf::rng &r, co
             try {
                 if constexpr (std::is_void_v<T>) { MK().join(); res.got.state = PS_VALUE; }
                 else { T v = MK().join(); res.got.state = PS_VALUE; res.got.val = c4_id(v); }
-            } catch (const vf::test_exc &e) { res.got.state = PS_EXC; res.got.code = e.code; } catch (const f_cancel_reason &e) { res.got.state = PS_EXC; res.got.code = e.code; }
+            } catch (const vf::test_exc &e) { res.got.state = PS_EXC; res.got.code = e.code; } catch (const f_cancel_reason &e) { res.got.state = PS_EXC; res.got.code = e.code; } catch (const cocls::await_canceled_exception &) { res.got.state = PS_CANCELED; }
             res.have = true;
             break;
         }
